@@ -483,8 +483,8 @@ func init() { register("C13.census", func() Case { return &censusReplay{} }) }
 
 // censusReplay decodes a saved census case (the inner case is decoded through the registry).
 type censusReplay struct {
-	Kind  string          `json:"inner_kind"`
-	Inner jsonRaw         `json:"inner"`
+	Kind  string  `json:"inner_kind"`
+	Inner jsonRaw `json:"inner"`
 	inner Case
 }
 
